@@ -197,7 +197,12 @@ def vectors(T, tier):
 
 
 BAD_FIELDS = ["", "AV", "AV:", ":N", "AV:N:N", "av:n", " AV:N", "AV:N ", "AV=N", "X", "CVSS:3.1", "AV:NN"]
-BAD_PREFIX = ["CVSS:3.2/", "CVSS:3.10/", "cvss:3.1/", "CVSS:3.1", "", "/", "CVSS:4.1/", "CVSS:2.0/"]
+BAD_PREFIX = ["CVSS:3.2/", "CVSS:3.10/", "cvss:3.1/", "CVSS:3.1", "", "/", "CVSS:4.1/", "CVSS:2.0/",
+              "CVSS:3.01/", "CVSS:3.00/", "CVSS:04.0/", "CVSS:4.00/",
+              # decimal digits of other scripts (value 0 or 1), some known to the Unicode database
+              # of newer interpreters only (3.7, 3.8, 3.9, 3.12)
+              "CVSS:3.\u0661/", "CVSS:3.\uff11/", "CVSS:3.\u0966/", "CVSS:\uff13.1/", "CVSS:4.\uff10/",
+              "CVSS:3.\U00011d51/", "CVSS:3.\U0001e141/", "CVSS:3.\U0001fbf1/", "CVSS:3.\U00011f51/"]
 
 
 def invalid_strings(T, tier):
@@ -326,6 +331,20 @@ def cli_cases(T, tier):
             if len(vf) <= 1:
                 out.append((vf + of, ""))
                 out.append((vf + of, "N\nL\n"))
+    # other spellings of the same options: clustered short options, attached values, abbreviations
+    for v in vecs[:7]:
+        out.append((["-2n", "-v", v], ""))
+        out.append((["-nj", "-v", v], ""))
+        out.append((["-4nj", "-v", v], ""))
+        out.append((["-v" + v], ""))
+        out.append((["-3", "-v" + v, "-j"], ""))
+        out.append((["--vec", v], ""))
+        out.append((["--vect=" + v, "--js"], ""))
+        out.append((["--no-col", "-v", v], ""))
+        out.append((["--no-colors", "--json", "--vector", v], ""))
+    out.append((["-na"], "N\nL\n"))
+    out.append((["-2na"], ""))
+    out.append((["--al", "--no-c"], "N\n"))
     return out
 
 
